@@ -578,6 +578,12 @@ def nontrivial(r):
         return (op, i['P'], i['n'], i['nsform'], sum(1 for v in i['phi'] if v != '0') > 1)
     if op == 'transition1D':
         return (op, len(i['x']), i['dt'], i['gamma'], i['nu'])
+    if op == 'advance1D':
+        return (op, len(i['u']), common.digest(i['P']))
+    if op == 'advance_adi':
+        return (op, i['P'], i['axis'], common.digest(i['Pm']))
+    if op == 'equilibrium':
+        return (op, i['pts'], i['ns'], i['rho'], i['dt'], i['gammaA'])
     if op == 'geno_pairs':
         return (op, i['n'], tuple(i['counts'])) if sum(1 for c in i['counts'] if c > 0) >= 2 else None
     if op == 'geno_weights':
